@@ -279,7 +279,9 @@ func (s *rsSession) panicInfo() (string, string) {
 	return s.panic, s.frame
 }
 
-const rsWait = 30 * time.Second
+// (lal's chunk reader is quadratic in the number of chunks of a message: with a peer chunk size of 1 a 200 KB command takes
+//  about 40 s of processor time on this machine - slow, but it ends; the bound only has to tell that from "never")
+const rsWait = 180 * time.Second
 
 // send writes b in the requested fragmentation and returns the observation after the last fragment.
 func (s *rsSession) send(b []byte, cuts []int, frag string) string {
